@@ -163,7 +163,7 @@ func (fv *FuncVC) setVal(v ssa.Value, t Term) {
 // define introduces a named constant for the value of an SSA register (keeps
 // terms small and gives the model something to show).
 func (fv *FuncVC) define(v ssa.Value, t Term) {
-	if len(t.S) < 24 || t.Sort == "Tuple" {
+	if len(t.S) < 160 || t.Sort == "Tuple" {
 		fv.setVal(v, t)
 		return
 	}
@@ -288,9 +288,18 @@ func (fv *FuncVC) doAlloc(a *ssa.Alloc) {
 	// freshness via the allocation watermark
 	brk := fv.ghostVal(fv.cur, "$brk")
 	fv.assumeHere(le(brk, addr))
-	nb := fv.freshConst("g.brk", SInt)
-	fv.assumeHere(le(add(addr, intLit(max64(sz, 1))), nb))
-	fv.cur.ghost["$brk"] = nb
+	if a.Heap {
+		nb := fv.freshConst("g.brk", SInt)
+		fv.assumeHere(le(add(addr, intLit(max64(sz, 1))), nb))
+		fv.cur.ghost["$brk"] = nb
+	} else {
+		// stack cell whose address is taken: a new object (above the watermark of pre-existing
+		// memory) that is not a heap allocation; distinct from the other stack cells
+		for _, o := range fv.stackCells {
+			fv.assume(or(le(add(addr, intLit(max64(sz, 1))), o.addr), le(add(o.addr, intLit(max64(o.size, 1))), addr)))
+		}
+		fv.stackCells = append(fv.stackCells, stackCell{addr, sz})
+	}
 	addr.T = a.Type()
 	fv.vals[a] = addr
 	// zero-initialise
@@ -685,7 +694,8 @@ func (fv *FuncVC) binop(x *ssa.BinOp) {
 			lo, hi, _ := intRange(t)
 			fv.oblige("overflow", x.Op.String(), and(le(bigLit(lo), r), le(r, bigLit(hi))), x.Pos(), "signed arithmetic does not overflow")
 		} else {
-			r = wrapTo(r, t)
+			fv.defineWrapped(x, r, t)
+			return
 		}
 		fv.define(x, r)
 	case token.QUO, token.REM:
@@ -812,6 +822,23 @@ func (fv *FuncVC) binop(x *ssa.BinOp) {
 	default:
 		fv.abort("unsupported binary op %s", x.Op)
 	}
+}
+
+// defineWrapped names the wrap-around of an exact result r to unsigned type t and adds the
+// (valid) arithmetic fact that the wrap is the identity when r is in range, which spares the
+// solver reasoning about mod in the common no-overflow case.
+func (fv *FuncVC) defineWrapped(x ssa.Value, r Term, t types.Type) {
+	_, hi, ok := intRange(t)
+	if !ok {
+		fv.define(x, r)
+		return
+	}
+	w := wrapTo(r, t)
+	c := fv.freshConst("r."+x.Name(), SInt)
+	fv.assume(eq(c, w))
+	fv.assume(and(le(intLit(0), c), le(c, bigLit(hi))))
+	fv.assume(implies(and(le(intLit(0), r), le(r, bigLit(hi))), eq(c, r)))
+	fv.setVal(x, c)
 }
 
 // shlConst reports whether v is x << k for a constant k.
